@@ -600,7 +600,16 @@ func RunReuse(c *Case, pick int, newTxt func(ty string) []byte) ([]*CaseObs, err
 		second.Parse = parseInto(&c.M, w2, true)
 		second.Nonstrict = parseInto(&c.M, w2, false)
 	}
-	out := []*CaseObs{mk(c.ID+"/first-bytes-after-second-call", tree1, w1), second}
+	first := mk(c.ID+"/first-bytes-after-second-call", tree1, w1)
+	// "parsing the bytes produced by serializing a message yields the same values" (C02) - also when they are parsed after
+	// the message object went on to produce other bytes
+	if wellFormedForParse(tree1) {
+		first.Parsed = true
+		first.StrictRT = true
+		first.Parse = parseInto(tree1, w1, true)
+		first.Nonstrict = parseInto(tree1, w1, false)
+	}
+	out := []*CaseObs{first, second}
 	// a message object that has been serialized is then used as the target of a parse (in-place writes into its fields, the
 	// framing fields included); a FRESH message built afterwards must not be affected by what was written there
 	if wellFormedForParse(tree1) {
@@ -615,6 +624,19 @@ func RunReuse(c *Case, pick int, newTxt func(ty string) []byte) ([]*CaseObs, err
 			if err == nil && pn == "" {
 				out = append(out, mk(c.ID+"/fresh-message-after-parse-into-a-used-one", &c.M, w3))
 			}
+		}
+		// ... and the used object itself is serialized again (serialize, parse into it, serialize): what it holds now is not
+		// the properties' business (C02 parses into EMPTY messages), that its serialization is framed correctly is (C01)
+		var w4 []byte
+		err, pn := safely(func() error {
+			var e error
+			w4, e = msg.ToBytes()
+			return e
+		})
+		if err == nil && pn == "" {
+			o := mk(c.ID+"/reserialized-after-parse-into-itself", &c.M, w4)
+			o.FrameOnly = true
+			out = append(out, o)
 		}
 	}
 	return out, nil
